@@ -1,10 +1,14 @@
 (* C12 -- Every ID3 frame type survives binary encoding.
    Theorems over the hand model Model.Id3Spec / Model.Id3Frame (tied to mutagen.id3 by the correspondence
-   harness) and over Gen.Gen_frames, the frame spec table regenerated from the live registry on every run. *)
+   harness) and over Gen.Gen_frames, the frame spec table regenerated from the live registry on every run.
+   Values of float fields are their wire integers (gain*512, peak*32768, freq*2); nested frames are handled by
+   the depth-indexed reader/writer tag_read / tag_write (any depth d).  Not covered here: Huffman-coded
+   zlib streams, the float conversions, v2.2 three-letter framing (harness only). *)
 From Coq Require Import ZArith List Bool Lia.
 Import ListNotations.
 Require Import Base.Py Base.ZList Model.Id3Spec Model.Id3Frame Gen.Gen_frames
-  Proofs.C12_ints Proofs.C12_codec Proofs.C12_specs Proofs.C12_frame.
+  Proofs.C12_ints Proofs.C12_codec Proofs.C12_specs Proofs.C12_specs2 Proofs.C12_frame Proofs.C12_framing
+  Proofs.C12_tag Proofs.C12_nested.
 Open Scope Z_scope.
 
 (* ---- (a) text codecs: decode (encode s) = s for every list of valid code points, astral planes included *)
@@ -24,7 +28,7 @@ Theorem C12_no_embedded_terminator : forall s, forallb valid_cp s = true -> no_z
 Proof. intros. split; [apply utf8_no_zero | apply u16_no_zero_unit]; assumption. Qed.
 Print Assumptions C12_no_embedded_terminator.
 
-(* decode_terminated / EncodedTextSpec for the four ID3 encodings *)
+(* decode_terminated / EncodedTextSpec for the four ID3 encodings (Latin-1, UTF-16 with BOM, UTF-16BE, UTF-8) *)
 Theorem C12_encoded_text_roundtrip : forall ver enc s rest, valid_enc enc = true -> text_ok enc s = true ->
   exists b, enc_text_write enc s = Ok b /\
             enc_text_read ver enc (b ++ rest) = Ok (s, if (ver <? 4) && all_zero rest then [] else rest).
@@ -33,7 +37,7 @@ Proof.
 Qed.
 Print Assumptions C12_encoded_text_roundtrip.
 
-(* ---- (b) per-spec round trips *)
+(* ---- (b) per-spec round trips under prim_valid / spec_valid *)
 Theorem C12_spec_self_delimiting : forall sub subw subvalid ver c k v,
   self_delim k = true -> prim_valid subvalid ver c k v = true ->
   exists b, prim_write subw c k v = Ok b /\ b <> [] /\
@@ -41,6 +45,17 @@ Theorem C12_spec_self_delimiting : forall sub subw subvalid ver c k v,
                          prim_read sub ver c k (b ++ rest) = Ok (v, rest).
 Proof. intros. eapply prim_sd; eassumption. Qed.
 Print Assumptions C12_spec_self_delimiting.
+
+(* every spec kind as the final field of a frame (nested frames: for any reader inverting the writer) *)
+Theorem C12_spec_final : forall sub subw subvalid ver,
+  (forall v, subvalid v = true -> exists b, subw v = Ok b /\ sub b = Ok (v, [])) ->
+  forall c k v, last_ok k = true -> prim_valid subvalid ver c k v = true ->
+  exists b, prim_write subw c k v = Ok b /\ prim_read sub ver c k b = Ok (v, []).
+Proof.
+  intros sub subw subvalid ver H c k v Hk Hv.
+  destruct (prim_last sub subw subvalid ver H c k v Hk Hv) as (b & Hw & _ & Hr). exists b. split; assumption.
+Qed.
+Print Assumptions C12_spec_final.
 
 Theorem C12_multispec_roundtrip : forall sub subw subvalid ver c ks v,
   spec_valid subw subvalid ver c (KMulti ks) v = true ->
@@ -59,29 +74,77 @@ Theorem C12_gain_peak_wire : forall sub subw ver c n rest,
 Proof. exact gain_peak_wire. Qed.
 Print Assumptions C12_gain_peak_wire.
 
-(* ---- (c) spec-list-driven frame round trip *)
-Theorem C12_frame_roundtrip_partial : forall sub subw subvalid ver,
+(* ---- (c) spec-list-driven frame round trip, any frame description with a composable spec list *)
+Theorem C12_frame_roundtrip_generic : forall sub subw subvalid ver,
   (forall v, subvalid v = true -> exists b, subw v = Ok b /\ sub b = Ok (v, [])) ->
-  forall fr vs,
-  spec_list_ok fr = true -> kinds_covered (all_fields fr) = true ->
-  frame_valid subw subvalid ver fr vs = true ->
+  forall fr vs, spec_list_ok fr = true -> frame_valid subw subvalid ver fr vs = true ->
   exists b, frame_write subw ver fr vs = Ok b /\ frame_read sub ver fr b = Ok (vs, []).
 Proof. intros. eapply frame_roundtrip; eassumption. Qed.
-Print Assumptions C12_frame_roundtrip_partial.
+Print Assumptions C12_frame_roundtrip_generic.
 
-(* ---- (d) every frame class of the live registry has a composable spec list *)
+(* the model's entry points, nested CHAP/CTOC sub-frames included, at every nesting depth d *)
+Theorem C12_frame_roundtrip : forall tbl22 tbl ver d g fr vs,
+  ver = 3 \/ ver = 4 -> table_ok tbl = true ->
+  spec_list_ok fr = true -> frame_valid_d tbl22 tbl ver d fr vs = true ->
+  exists b, frame_write_d tbl22 tbl ver d fr vs = Ok b /\ frame_read_d tbl22 tbl ver d g fr b = Ok (vs, []).
+Proof. intros. eapply frame_roundtrip_d; eassumption. Qed.
+Print Assumptions C12_frame_roundtrip.
+
+(* ---- (d) every frame class of the live registry has a composable spec list (re-evaluated on every run) *)
 Theorem C12_all_frames_ok : forallb spec_list_ok (all_frames ++ frames_2_2) = true.
 Proof. vm_compute. reflexivity. Qed.
 Print Assumptions C12_all_frames_ok.
 
-(* the classes whose spec kinds are not all covered by C12_frame_roundtrip_partial (differential testing only) *)
-Theorem C12_uncovered_frames :
-  map fr_id (filter (fun f => negb (kinds_covered (all_fields f))) (all_frames ++ frames_2_2))
-  = [[65;83;80;73]; [69;81;85;50]; [69;84;67;79]; [82;86;65;68]; [83;89;76;84]; [69;84;67]; [82;86;65]; [83;76;84]].
+Theorem C12_table_ok : table_ok all_frames = true.
 Proof. vm_compute. reflexivity. Qed.
-Print Assumptions C12_uncovered_frames.
+Print Assumptions C12_table_ok.
 
-(* non-vacuity *)
+(* ---- (e) tag level: read_frames (concat (map save_frame frames)) = frames, in order *)
+Theorem C12_tag_roundtrip_v24 : forall d xs bs,
+  Forall (entry_ok (tag_write frames_2_2 all_frames 4 d) (tag_valid frames_2_2 all_frames 4 d) 4 all_frames) xs ->
+  rmapM (saved (tag_write frames_2_2 all_frames 4 d) 4) xs = Ok bs ->
+  determine_bpi all_frames (concat bs) = true ->
+  tag_read frames_2_2 all_frames 4 (S d) false (concat bs) = Ok (mkParsed (map loaded_of xs) [] []).
+Proof.
+  intros d xs bs F R B. apply (tag_roundtrip_d frames_2_2 all_frames 4 (or_intror eq_refl) C12_table_ok d xs bs F R).
+  intros _. exact B.
+Qed.
+Print Assumptions C12_tag_roundtrip_v24.
+
+Theorem C12_tag_roundtrip_v23 : forall d xs bs,
+  Forall (entry_ok (tag_write frames_2_2 all_frames 3 d) (tag_valid frames_2_2 all_frames 3 d) 3 all_frames) xs ->
+  rmapM (saved (tag_write frames_2_2 all_frames 3 d) 3) xs = Ok bs ->
+  tag_read frames_2_2 all_frames 3 (S d) false (concat bs) = Ok (mkParsed (map loaded_of xs) [] []).
+Proof.
+  intros d xs bs F R. apply (tag_roundtrip_d frames_2_2 all_frames 3 (or_introl eq_refl) C12_table_ok d xs bs F R).
+  intros E. discriminate E.
+Qed.
+Print Assumptions C12_tag_roundtrip_v23.
+
+(* ---- (f) flagged input framings decode like the plain framing *)
+Theorem C12_input_framings_agree : forall sub fr d dl, zlen dl = 4 -> zlen d <= 65535 ->
+  let plain4 := from_data sub 4 false fr 0 d in
+  let plain3 := from_data sub 3 false fr 0 d in
+  from_data sub 4 false fr 2 (fr_unsynch_encode d) = plain4 /\
+  from_data sub 4 true fr 0 (fr_unsynch_encode d) = plain4 /\
+  from_data sub 4 false fr 1 (dl ++ d) = plain4 /\
+  from_data sub 4 false fr 3 (dl ++ fr_unsynch_encode d) = plain4 /\
+  from_data sub 4 false fr 9 (dl ++ zlib_store d) = plain4 /\
+  from_data sub 4 false fr 11 (dl ++ fr_unsynch_encode (zlib_store d)) = plain4 /\
+  from_data sub 3 false fr 128 (dl ++ zlib_store d) = plain3 /\
+  plain4 = frame_read sub 4 fr d /\ plain3 = frame_read sub 3 fr d.
+Proof. exact input_framings_agree. Qed.
+Print Assumptions C12_input_framings_agree.
+
+Theorem C12_unsynch_roundtrip : forall l, fr_unsynch_decode (fr_unsynch_encode l) = Ok l.
+Proof. exact unsynch_roundtrip. Qed.
+Print Assumptions C12_unsynch_roundtrip.
+
+Theorem C12_stored_inflate : forall d, zlen d <= 65535 -> inflate_stored (zlib_store d) = Ok d.
+Proof. exact inflate_store. Qed.
+Print Assumptions C12_stored_inflate.
+
+(* ---- non-vacuity: the hypotheses are satisfiable, the degenerate v2.3 case is excluded by frame_valid *)
 Example C12_ex_apic :
   let vs := [VInt 1; VText [105;109;97;103;101;47;112;110;103]; VInt 3; VText [128512; 233]; VBytes [255; 0; 0]] in
   frame_valid_d frames_2_2 all_frames 4 1 fr_APIC vs = true /\
@@ -89,4 +152,38 @@ Example C12_ex_apic :
   frame_valid_d frames_2_2 all_frames 3 1 fr_APIC [VInt 1; VText [105]; VInt 3; VText []; VBytes [0; 0; 0]] = false /\
   frame_read_d frames_2_2 all_frames 3 1 false fr_APIC
     (match frame_write_d frames_2_2 all_frames 3 1 fr_APIC vs with Ok b => b | Raise _ => [] end) = Ok (vs, []).
+Proof. vm_compute. repeat split. Qed.
+
+Example C12_ex_nested_chap :
+  let tit2 := VList [VBytes [84;73;84;50]; VList [VInt 3; VList [VText [97; 128512]]]] in
+  let vs := [VText [99]; VInt 1; VInt 2; VInt 5; VInt 6; VList [tit2]] in
+  frame_valid_d frames_2_2 all_frames 4 2 fr_CHAP vs = true /\
+  frame_read_d frames_2_2 all_frames 4 2 false fr_CHAP
+    (match frame_write_d frames_2_2 all_frames 4 2 fr_CHAP vs with Ok b => b | Raise _ => [] end) = Ok (vs, []).
+Proof. vm_compute. repeat split. Qed.
+
+Example C12_ex_tag :
+  let x1 := (fr_TIT2, [VInt 1; VList [VText [97]; VText [98; 99]]]) in
+  let x2 := (fr_RVA2, [VText [109]; VInt 1; VInt (-1792); VInt 16384]) in
+  match rmapM (saved (tag_write frames_2_2 all_frames 4 1) 4) [x1; x2] with
+  | Ok bs => determine_bpi all_frames (concat bs) = true /\
+             tag_read frames_2_2 all_frames 4 2 false (concat bs) = Ok (mkParsed (map loaded_of [x1; x2]) [] [])
+  | Raise _ => False
+  end.
+Proof. vm_compute. repeat split. Qed.
+
+(* the determine_bpi hypothesis of C12_tag_roundtrip_v24 is needed: a binary payload with aligned fake
+   frame headers makes the heuristic read the (syncsafe) v2.4 sizes as plain integers *)
+Example C12_bpi_heuristic_refuted :
+  let fake := [84;73;84;50;0;0;0;0;0;0] in
+  let x1 := (fr_PRIV, [VText [97]; VBytes (repeat 120 126)]) in
+  let x2 := (fr_PRIV, [VText [98]; VBytes (repeat 121 116 ++ fake ++ fake ++ fake ++ repeat 122 50)]) in
+  match rmapM (saved (tag_write frames_2_2 all_frames 4 1) 4) [x1; x2] with
+  | Ok bs => determine_bpi all_frames (concat bs) = false /\
+             match tag_read frames_2_2 all_frames 4 2 false (concat bs) with
+             | Ok p => length (p_frames p) = 1%nat
+             | Raise _ => False
+             end
+  | Raise _ => False
+  end.
 Proof. vm_compute. repeat split. Qed.
